@@ -92,15 +92,23 @@ theorem C15_cdx_at (ops : PurlOps Purl) (env : Env) (cfg : CDXConfig)
   rw [cdx_dispatch f]
   simp only [hc]
 
+/-- what a returned purl `q` shares with the exported purl `u` it is the normal form of: everything but the case of the type, the
+case / separator folding of the name, case and empty segments of the namespace, the case of qualifier keys and meaningless
+sub-path segments -/
+def SameUpToType (ops : PurlOps Purl) (fld : PurlFields Purl) (q u : Purl) : Prop :=
+  ops.version q = ops.version u ∧ canonName (ops.name q) = canonName (ops.name u) ∧ (fld.typ q).toList = lowerL (fld.typ u) ∧
+  (cleanSegs (fld.ns q)).map lowerL = (cleanSegs (fld.ns u)).map lowerL ∧
+  (∀ x, x ∈ canonQuals (fld.quals q) ↔ x ∈ canonQuals (fld.quals u)) ∧ cleanSegs (fld.subpath q) = cleanSegs (fld.subpath u)
+
 /-- every purl of the spec list is the normal form of an exported package's purl, with that package's version, a name equal
 up to `canonName`, and is itself normal -/
-theorem specNorm_fields (ops : PurlOps Purl) (norm : Purl → Purl) (hl : NormLaws ops norm) (exported : Pkg Purl → Bool)
+theorem specNorm_fields (ops : PurlOps Purl) (fld : PurlFields Purl) (norm : Purl → Purl) (hl : NormLaws ops fld norm) (exported : Pkg Purl → Bool)
     (inv : List (Pkg Purl)) : ∀ q ∈ specNorm norm exported inv, ∃ p ∈ inv, ∃ u, exported p = true ∧ p.purl = some u ∧ q = norm u ∧
-      ops.version q = ops.version u ∧ canonName (ops.name q) = canonName (ops.name u) ∧ norm q = q := by
+      SameUpToType ops fld q u ∧ norm q = q := by
   intro q hq
   simp only [specNorm, List.mem_map, List.mem_filterMap, List.mem_filter] at hq
   obtain ⟨u, ⟨p, ⟨hp, hex⟩, hu⟩, rfl⟩ := hq
-  exact ⟨p, hp, u, hex, hu, rfl, hl.version u, hl.name u, hl.idem u⟩
+  exact ⟨p, hp, u, hex, hu, rfl, ⟨hl.version u, hl.name u, hl.typ u, hl.ns u, hl.quals u, hl.subpath u⟩, hl.idem u⟩
 
 /-- **C15 for SPDX (json / yaml / tag-value alike)**: if the document built for THIS inventory survives the format's
 writer + reader, the scan of the written file returns, as a multiset, exactly the normal forms of the exported packages' purls;
@@ -109,36 +117,55 @@ point of the normalisation. -/
 theorem C15_spdx_partial (ops : PurlOps Purl) (env : Env) (cfg : SPDXConfig)
     (codecOf : SpdxFormat → Codec SpdxDoc Bytes) (f : SpdxFormat) (hf : f ≠ .rdf) (inv : List (Pkg Purl))
     (hc : (codecOf f).decode ((codecOf f).encode (toSpdx ops env cfg inv)) = some (toSpdx ops env cfg inv))
-    (norm : Purl → Purl) (hn : ParsesBack ops norm inv) (hl : NormLaws ops norm) :
+    (fld : PurlFields Purl) (norm : Purl → Purl) (hn : ParsesBack ops norm inv) (hl : NormLaws ops fld norm) :
     ∃ pkgs, roundTripSpdx ops env cfg codecOf f inv = .ok pkgs ∧
       (purlsOf pkgs).Perm (((inv.filter (exportedSpdx ops)).filterMap (·.purl)).map norm) ∧
       ∀ q ∈ purlsOf pkgs, ∃ p ∈ inv, ∃ u, exportedSpdx ops p = true ∧ p.purl = some u ∧ q = norm u ∧
-        ops.version q = ops.version u ∧ canonName (ops.name q) = canonName (ops.name u) ∧ norm q = q := by
+        SameUpToType ops fld q u ∧ norm q = q := by
   obtain ⟨pkgs, h1, h2⟩ := C15_spdx_at ops env cfg codecOf f hf inv hc
   have h3 : purlsOf pkgs = specNorm norm (exportedSpdx ops) inv := by
     rw [h2, specSpdx, specPurls_eq_specNorm ops norm _ inv hn]
   refine ⟨pkgs, h1, by rw [h3]; exact List.Perm.refl _, ?_⟩
-  rw [h3]; exact specNorm_fields ops norm hl _ inv
+  rw [h3]; exact specNorm_fields ops fld norm hl _ inv
 
 /-- **C15 for CycloneDX (json / xml)**, same shape; exported = has a purl -/
 theorem C15_cdx_partial (ops : PurlOps Purl) (env : Env) (cfg : CDXConfig)
     (codecOf : CdxFormat → Codec Bom Bytes) (f : CdxFormat) (hempty : ops.parse "" = none) (inv : List (Pkg Purl))
     (hc : (codecOf f).decode ((codecOf f).encode (toCdx ops env cfg inv)) = some (toCdx ops env cfg inv))
-    (norm : Purl → Purl) (hn : ParsesBack ops norm inv) (hl : NormLaws ops norm) :
+    (fld : PurlFields Purl) (norm : Purl → Purl) (hn : ParsesBack ops norm inv) (hl : NormLaws ops fld norm) :
     ∃ pkgs, roundTripCdx ops env cfg codecOf f inv = .ok pkgs ∧
       (purlsOf pkgs).Perm (((inv.filter hasPurl).filterMap (·.purl)).map norm) ∧
       ∀ q ∈ purlsOf pkgs, ∃ p ∈ inv, ∃ u, hasPurl p = true ∧ p.purl = some u ∧ q = norm u ∧
-        ops.version q = ops.version u ∧ canonName (ops.name q) = canonName (ops.name u) ∧ norm q = q := by
+        SameUpToType ops fld q u ∧ norm q = q := by
   obtain ⟨pkgs, h1, h2⟩ := C15_cdx_at ops env cfg codecOf f hempty inv hc
   have h3 : purlsOf pkgs = specNorm norm exportedCdx inv := by
     rw [h2, specCdx, specPurls_eq_specNorm ops norm _ inv hn]
   refine ⟨pkgs, h1, by rw [h3]; exact List.Perm.refl _, ?_⟩
-  rw [h3]; exact specNorm_fields ops norm hl _ inv
+  rw [h3]; exact specNorm_fields ops fld norm hl _ inv
 
 /-- the audit's counterexample is excluded: a normalisation that sends everything to one purl violates `NormLaws` as soon
 as two purls have different versions -/
-theorem C15_constant_norm_excluded (ops : PurlOps Purl) (e u : Purl) (h : ops.version u ≠ ops.version e) :
-    ¬ NormLaws ops (fun _ => e) := fun hl => h (hl.version u).symm
+theorem C15_constant_norm_excluded (ops : PurlOps Purl) (fld : PurlFields Purl) (e u : Purl) (h : ops.version u ≠ ops.version e) :
+    ¬ NormLaws ops fld (fun _ => e) := fun hl => h (hl.version u).symm
+
+/-- AUDIT-2's counterexample is excluded: a library that maps every purl to type "evil" (keeping name and version) violates
+`NormLaws` as soon as one purl has another type; so does one that drops or rewrites a qualifier value (seeded change C15e: a blank
+in `distro=Plucky Puffin` read back as `+`) -/
+theorem C15_evil_type_excluded (ops : PurlOps Purl) (fld : PurlFields Purl) (norm : Purl → Purl)
+    (hevil : ∀ u, fld.typ (norm u) = "evil") (u : Purl) (hu : lowerL (fld.typ u) ≠ "evil".toList) : ¬ NormLaws ops fld norm :=
+  fun hl => hu ((hl.typ u).symm.trans (by rw [hevil u]))
+
+theorem C15_qualifier_rewrite_excluded (ops : PurlOps Purl) (fld : PurlFields Purl) (norm : Purl → Purl) (u : Purl) (k v : String)
+    (hv : v ≠ "") (hin : (k, v) ∈ fld.quals u) (hout : ∀ k', (k', v) ∉ fld.quals (norm u)) : ¬ NormLaws ops fld norm := by
+  intro hl
+  have h1 : (lowerL k, v) ∈ canonQuals (fld.quals u) := by
+    simp only [canonQuals, List.mem_map, List.mem_filter]
+    exact ⟨(k, v), ⟨hin, by simpa using hv⟩, rfl⟩
+  have h2 := (hl.quals u (lowerL k, v)).mpr h1
+  simp only [canonQuals, List.mem_map, List.mem_filter] at h2
+  obtain ⟨⟨k', v'⟩, ⟨hm, _⟩, he⟩ := h2
+  simp only [Prod.mk.injEq] at he
+  exact hout k' (he.2 ▸ hm)
 
 /-! ### the wrapper package is recognised by STRUCTURE, never by name
 
@@ -325,8 +352,14 @@ theorem C15_unparsable_lost :
 
 /-! non-vacuity of the `_partial` hypotheses: the toy library's normalisation obeys `NormLaws`; the identity codec satisfies
 the pointwise hypothesis on the example inventory -/
-example : NormLaws toyOps toyNorm := by
-  refine ⟨fun u => ?_, fun u => ?_, fun u => ?_⟩
+def toyFld : PurlFields String where
+  typ := fun s => if s = "pkg:NPM/B@2" then "NPM" else if s = "pkg:npm/B@2" then "npm" else "t"
+  ns := fun _ => ""
+  quals := fun s => if s = "pkg:NPM/B@2" ∨ s = "pkg:npm/B@2" then [("arch", "amd64")] else []
+  subpath := fun _ => ""
+
+example : NormLaws toyOps toyFld toyNorm := by
+  refine ⟨fun u => ?_, fun u => ?_, fun u => ?_, fun u => ?_, fun u => ?_, fun u x => ?_, fun u => ?_⟩
   · unfold toyNorm; split <;> simp
   · unfold toyNorm toyOps; split
     · rename_i h; subst h; decide
@@ -334,6 +367,18 @@ example : NormLaws toyOps toyNorm := by
   · unfold toyNorm toyOps; split
     · rename_i h; subst h; simp
     · rfl
+  · unfold toyNorm toyFld; split
+    · rename_i h; subst h; decide
+    · rename_i h; simp only [h, if_false]; split <;> decide
+  · rfl
+  · unfold toyNorm toyFld; split
+    · rename_i h; subst h; simp
+    · rfl
+  · rfl
+
+/-- the toy library with every type rewritten to "evil" is NOT a model of the laws -/
+example : ¬ NormLaws toyOps { toyFld with typ := fun s => if s = "pkg:npm/a@1" then "npm" else "evil" } (fun _ => "x") :=
+  C15_evil_type_excluded _ _ _ (fun _ => by decide) "pkg:npm/a@1" (by decide)
 example : (idCodec SpdxDoc).decode ((idCodec SpdxDoc).encode (toSpdx toyOps toyEnv {} exInv)) = some (toSpdx toyOps toyEnv {} exInv) := rfl
 
 /-- a package whose purl NAME is `main` (and whose SPDX id therefore starts with `SPDXRef-Package-main-`, exactly like the
